@@ -3,6 +3,7 @@ import XeofsProofs.Lemmas.Small
 import XeofsProofs.Props.C01
 import XeofsProofs.Props.C04
 import XeofsModel.Generated.Facts
+import XeofsProofs.Lemmas.BootModel
 /-!
 # C20 — bootstrap members are sign-aligned, reproducible EOF analyses of resamples
 
@@ -68,5 +69,27 @@ theorem src_no_literal_dimension_names : Gen.literalDimUses = [] := by decide
 /-- source obligation: a member's scores are the projection of the ORIGINAL preprocessed samples on the member's components -/
 theorem src_member_scores_project_originals :
     Gen.bootstrapMemberScoresExpr = ["bst_model.transform(input_data, normalized=False)"] := by decide
+
+/-! ### on the executable member model `XM.bootMember` (run by the driver next to `EOFBootstrapper.fit`) -/
+
+/-- member components are orthonormal, whatever sign the decomposer chose and whatever the alignment with the model decided -/
+theorem model_member_components_orthonormal {n p k r : ℕ} (hk : k ≤ r) (D : XM.Mat n p 𝕜) (idx : Fin n → Fin n) (U : XM.Mat n r 𝕜)
+    (s : Fin r → ℝ) (V : XM.Mat p r 𝕜) (sd sa : Fin k → ℝ) (hV : V.toMatrixᴴ * V.toMatrix = 1) (hsd : ∀ j, sd j * sd j = 1)
+    (hsa : ∀ j, sa j * sa j = 1) :
+    (XM.bootMember hk D idx U s V sd sa).comps.toMatrixᴴ * (XM.bootMember hk D idx U s V sd sa).comps.toMatrix = 1 :=
+  XP.BootM.member_components_orthonormal hk D idx U s V sd sa hV hsd hsa
+
+/-- member scores are the projection of the ORIGINAL samples (centred with the resample's mean) on the member's components -/
+theorem model_member_scores_are_projection {n p k r : ℕ} (hk : k ≤ r) (D : XM.Mat n p 𝕜) (idx : Fin n → Fin n) (U : XM.Mat n r 𝕜)
+    (s : Fin r → ℝ) (V : XM.Mat p r 𝕜) (sd sa : Fin k → ℝ) :
+    (XM.bootMember hk D idx U s V sd sa).scores.toMatrix
+      = (XM.centreWith D (XM.colMeans (ρ := ℝ) (XM.resample D idx))).toMatrix * (XM.bootMember hk D idx U s V sd sa).comps.toMatrix :=
+  XP.BootM.member_scores_are_projection hk D idx U s V sd sa
+
+/-- what is decomposed is a with-replacement resample of the model's own samples (every row is one of its rows), centred -/
+theorem model_member_decomposes_centred_resample {n p : ℕ} (D : XM.Mat n p 𝕜) (idx : Fin n → Fin n) (hn : 0 < n) :
+    (∀ i j, (XM.resample D idx).toMatrix i j = D.toMatrix (idx i) j) ∧
+    (∀ j, ∑ i, (XM.bootDecomposed (ρ := ℝ) D idx).toMatrix i j = 0) :=
+  ⟨XP.BootM.resample_rows D idx, XP.BootM.decomposed_centred D idx hn⟩
 
 end C20
